@@ -15,11 +15,11 @@ def graphCheck (D : CfgData) (li lo fi fo : List (Nat × List Nat)) (ext : List 
   let E := D.graph.edges
   let R := Graph.revEdges E
   let F := liveFlow D
-  let m := liveRunModel D (fuelFor D)
+  let m := liveRunModel D (liveFuel D)
   let V := m.closed
   let FIN := solAt fi
   let FOUT := solAt fo
-  let mf := run E (fnFlow D) (fuelFor D) (WL.init [D.entry])
+  let mf := run E (fnFlow D) (fuelBound E [D.entry] (fnFlow D)) (WL.init [D.entry])
   let Vf := mf.closed
   let withLO := stmts.filter (fun s => s.liveOut.isSome)
   .list [
@@ -111,7 +111,7 @@ def handlers : List (String × (List Sexp → String)) := [
       let D ← cfgData? g inf fns
       let IN := solAt (← assoc? nats? li)
       let OUT := solAt (← assoc? nats? lo)
-      let m := liveRunModel D (fuelFor D)
+      let m := liveRunModel D (liveFuel D)
       let c : Ctx := { D := D, V := m.closed, IN := IN, OUT := OUT,
                        pfix := isPostFix (Graph.revEdges D.graph.edges) m.closed (liveFlow D) OUT IN }
       let outs ← (← trs.list?).mapM fun t => match t with
